@@ -22,7 +22,7 @@ func init() {
 		ID:    "C15",
 		Title: "Calendar periods tile the calendar exactly",
 		Rule: "every date 0000-01-01..9999-12-31 (one case per date; all are distinct and non-trivial) and every pattern string " +
-			"YYYY, YYYY-MM (00-99), YYYY-Qq (0-9), YYYY-Www (00-99), YYYY-Ww (0-9) plus shape near-misses, for all 10^4 years; " +
+			"YYYY, YYYY-MM (00-99), YYYY-Qq (0-9), YYYY-Www (00-99), YYYY-Ww (0-9) plus shape near-misses plus every single-character substitution / insertion (15 characters: signs, blanks, separators, letters, non-ASCII digits) and deletion on one pattern of each shape, for all 10^4 years; " +
 			"a case is a (date) or (pattern) and is hashed by its text",
 		Assumptions: []string{
 			"specmodel calendar (integer civil<->day arithmetic, ISO week by the Thursday rule); cross-checked against Go's time package on every day at the start of each unit",
@@ -114,8 +114,25 @@ func c15Unit(c *fw.Ctx, unit int) {
 			ys + "-001", " " + ys, ys + " ", ys + "-01-01", ys + "/01", ys + "-Q1 ", ys + "-W01x", "-" + ys, ys + "-0Q1", ys + "-W-1", ys + "-+1", ys + "-1Q", ys + "--01"} {
 			c15Pattern(c, nm)
 		}
+		// every single-character substitution, insertion and deletion on one pattern of each shape
+		for _, base := range []string{ys, ys + "-06", ys + "-Q2", ys + "-W07"} {
+			for pos := 0; pos <= len(base); pos++ {
+				for _, ch := range c15EditChars {
+					c15Pattern(c, base[:pos]+ch+base[pos:])
+					if pos < len(base) {
+						c15Pattern(c, base[:pos]+ch+base[pos+1:])
+					}
+				}
+				if pos < len(base) {
+					c15Pattern(c, base[:pos]+base[pos+1:])
+				}
+			}
+		}
 	}
 }
+
+// characters a lenient number or pattern parser is typically fooled by
+var c15EditChars = []string{"+", "-", " ", "x", "Q", "W", "0", "9", "/", ".", "_", "\u0660", "\uff11", "\t", "e"}
 
 func sameDate(d klog.Date, n int) bool {
 	e := sm.FromDayNumber(n)
